@@ -214,4 +214,13 @@ example :
        .gotNotification 1, .down, .fsm .opensent .idle, .close 1] := by
   decide
 
+/-- **An accepted trace never writes on a connection after a NOTIFICATION** was written on it (the clause of C10 the
+    trace checker carries; it is run on the traces of `local-as auto` / `peer-as auto` sessions, which M-Session
+    does not model). -/
+theorem accepted_trace_silent_after_notification (os : List Out) (g' : G) (h : chkAll true g0 os = some g')
+    (xs ys : List Out) (c code sub : Nat) (st : Fsm) (e : os = xs ++ Out.send c (.notification code sub) st :: ys) :
+    ∀ k st', Out.send c k st' ∉ ys := by
+  subst e
+  exact accepted_dead h (Or.inl ⟨code, sub, st, rfl⟩)
+
 end Exa.Props.C10
